@@ -87,3 +87,16 @@ m("c05-mux-parent-label-grandparent", ["C05"], Y,
   "                        pn = self._g[p[pinp]]._params[\"name\"]", "                        pn = self._get_parent_name(p[pinp])")
 m("c05-mux-vin-first-input", ["C05"], Y,
   "                    if pinp != -1 and len(p) > 1:\n                        vi = v[p[pinp]]", "                    if pinp != -1 and len(p) > 1:\n                        vi = v[p[0]]")
+
+# ---- C07 -------------------------------------------------------------------------------------
+m("c07-domain-carried-over", ["C07"], Y,
+  "        elif self._parents[n] != -1:\n            return self._find_domain(self._parents[n][0], domain, v)\n", "")
+m("c07-subsystem-loss-all-rows", ["C07"], Y,
+  "                loss = df[df.Domain == src][\"Loss (W)\"].sum()", "                loss = df[df.Type != \"\"][\"Loss (W)\"].sum()")
+m("c07-average-unweighted", ["C07"], Y,
+  "            aloss = np.sum(np.multiply(np.asarray(ploss), np.asarray(ptime))) / ttot", "            aloss = np.mean(np.asarray(ploss))")
+m("c07-energy-cycles-wrong-total", ["C07"], Y,
+  "        cycles = 24 * 3600.0 / tot_time", "        cycles = 24 * 3600.0 / max(tot_time, 3600.0)")
+m("c07-total-power-includes-loads", ["C07"], Y,
+  "            pwr = df[(df.Domain == \"\") & (df[\"Power (W)\"] != \"\")][\"Power (W)\"].sum()",
+  "            pwr = df[(df.Type == \"SOURCE\") | (df.Type == \"PMUX\")][\"Power (W)\"].sum()")
